@@ -7,19 +7,26 @@ EXTENDS PytdTypes, Json, IOUtils, TLCExt
 Cases == JsonDeserialize(IOEnv.TRACE_FILE)
 VARIABLE i
 
-(* A disagreement is labelled with the single documented deviation that explains it, if any.   *)
-Devs == {"hetero", "nonebool", "strseq"}
+(* A disagreement is labelled with the single documented deviation that explains it, if any,   *)
+(* else with the pair of deviations that does (in the fixed order of DevSeq), else it is       *)
+(* reported in full.  The label is computed from the specification only.                       *)
+DevSeq == <<"hetero", "nonebool", "strseq", "kwonlypos", "kwargsvar">>
+Devs == {DevSeq[j] : j \in DOMAIN DevSeq}
+PairLabels(P(_)) == {DevSeq[a] \o "+" \o DevSeq[b] : <<a, b>> \in
+                      {q \in (DOMAIN DevSeq) \X (DOMAIN DevSeq) : q[1] < q[2] /\ P({DevSeq[q[1]], DevSeq[q[2]]})}}
 Fails(c) ==
   LET adm == Admits(c.ann, c.val) IN
-  IF ~Understood(c.ann) THEN {}
+  IF ~Understood(c.ann) \/ ~Judgeable(c.ann, c.val) THEN {}
   ELSE IF c.err /\ adm THEN                            \* error on a conforming value
          LET ex == {d \in Devs : ~AdmitsD(c.ann, c.val, {d})} IN
          IF ex # {} THEN {"false-positive:" \o d : d \in ex} ELSE {"false-positive"}
   ELSE IF ~c.err /\ ~adm THEN                          \* violation not reported
          IF c.site = "assign" /\ c.val = <<"NoneType", <<>>>> THEN {"missed:assign-none"}
-         ELSE LET ex == {d \in Devs : AdmitsD(c.ann, c.val, {d})} IN
+         ELSE LET ex == {d \in Devs : AdmitsD(c.ann, c.val, {d})}
+                  Two(D) == AdmitsD(c.ann, c.val, D)
+                  ex2 == PairLabels(Two) IN
               IF ex # {} THEN {"missed:" \o d : d \in ex}
-              ELSE IF AdmitsD(c.ann, c.val, Devs) THEN {"missed:hetero+nonebool"}
+              ELSE IF ex2 # {} THEN {"missed:" \o d : d \in ex2}
               ELSE {"missed"}
   ELSE {}
 
